@@ -77,6 +77,19 @@ func LoadPackageIgnoreRules(packageDir string) (*Ruleset, error) {
 //
 //	exc, matching, _ = ruleset.Excludes(path)
 func (r *Ruleset) Excludes(path string) (ExcludesResult, error) {
+	return r.excludes(path)
+}
+
+// ExcludesDir is Excludes for a path that is known to name a directory. A
+// rule selects a directory if it matches the path as given or in its
+// directory form (with a trailing separator), so that a "dir/" pattern, and
+// in particular a later negation of one, applies to the directory itself and
+// not only to what is below it.
+func (r *Ruleset) ExcludesDir(path string) (ExcludesResult, error) {
+	return r.excludes(path, path+string(os.PathSeparator))
+}
+
+func (r *Ruleset) excludes(forms ...string) (ExcludesResult, error) {
 	if r == nil {
 		return ExcludesResult{}, nil
 	}
@@ -85,14 +98,18 @@ func (r *Ruleset) Excludes(path string) (ExcludesResult, error) {
 	foundMatch := false
 	dominating := false
 	for _, rule := range r.rules {
-		match, err := rule.match(path)
-		if err != nil {
-			// We'll remember the first error we encounter, but continue
-			// matching anyway to support callers that want to ignore invalid
-			// lines and just match with whatever's left.
-			if retErr == nil {
-				retErr = fmt.Errorf("invalid ignore rule %q", rule.val)
+		match := false
+		for _, path := range forms {
+			m, err := rule.match(path)
+			if err != nil {
+				// We'll remember the first error we encounter, but continue
+				// matching anyway to support callers that want to ignore invalid
+				// lines and just match with whatever's left.
+				if retErr == nil {
+					retErr = fmt.Errorf("invalid ignore rule %q", rule.val)
+				}
 			}
+			match = match || m
 		}
 		if match {
 			foundMatch = !rule.negated
